@@ -35,6 +35,8 @@ const ROUND: f64 = 32.0;
 trait C64 {
     fn eval(&self, t: f64) -> P2;
     fn mag(&self) -> f64;
+    /// upper bound of |dC/dt| on [0,1]
+    fn speed(&self) -> f64;
 }
 
 struct Q64 {
@@ -76,6 +78,9 @@ impl C64 for Q64 {
     fn mag(&self) -> f64 {
         mx(&[self.a, self.c, self.b])
     }
+    fn speed(&self) -> f64 {
+        2.0 * dist(self.a, self.c).max(dist(self.c, self.b))
+    }
 }
 impl C64 for K64 {
     fn eval(&self, t: f64) -> P2 {
@@ -84,6 +89,9 @@ impl C64 for K64 {
     }
     fn mag(&self) -> f64 {
         mx(&[self.a, self.c1, self.c2, self.b])
+    }
+    fn speed(&self) -> f64 {
+        3.0 * dist(self.a, self.c1).max(dist(self.c1, self.c2)).max(dist(self.c2, self.b))
     }
 }
 impl C64 for A64 {
@@ -96,6 +104,9 @@ impl C64 for A64 {
     fn mag(&self) -> f64 {
         // rounding of the angle (up to |start|+|sweep|) is amplified by the radius
         (mx(&[self.c]) + self.r.0.abs().max(self.r.1.abs())) * (1.0 + self.start.abs() + self.sweep.abs())
+    }
+    fn speed(&self) -> f64 {
+        self.r.0.abs().max(self.r.1.abs()) * self.sweep.abs()
     }
 }
 
@@ -147,37 +158,35 @@ fn d_pt_poly(p: P2, poly: &[P2], hint: usize, good: f64) -> f64 {
     d
 }
 
-/// distance from `p` to the curve: coarse sampling, then ternary refinement around the best
-/// samples. An upper bound of the true distance that is tight for points near the curve.
+/// distance from `p` to the curve by branch and bound on the parameter interval: `t ↦ |C(t)−p|`
+/// is Lipschitz with constant `speed()`, so on [t0,t1] it is ≥ (d0 + d1 − L·(t1−t0))/2. Returns
+/// as soon as a value ≤ `good` is seen; otherwise the minimum up to 0.1 % of `good`.
 fn d_pt_curve(p: P2, c: &dyn C64, n: usize, good: f64) -> f64 {
     let n = n.max(16);
+    let l = c.speed();
     let ds: Vec<f64> = (0..=n).map(|k| dist(p, c.eval(k as f64 / n as f64))).collect();
-    // every local minimum of the sampled distance is a candidate (curves that double back have
-    // one per branch); refine the most promising ones
-    let mut cand: Vec<(f64, usize)> = (0..=n)
-        .filter(|&k| (k == 0 || ds[k] <= ds[k - 1]) && (k == n || ds[k] <= ds[k + 1]))
-        .map(|k| (ds[k], k))
-        .collect();
-    cand.sort_by(|a, b| a.0.partial_cmp(&b.0).unwrap_or(std::cmp::Ordering::Equal));
-    let mut d = cand.first().map(|x| x.0).unwrap_or(f64::INFINITY);
-    for &(_, k) in cand.iter().take(24) {
-        if d <= good {
+    let mut best = ds.iter().cloned().fold(f64::INFINITY, f64::min);
+    let slack = (good * 1e-3).max(1e-13 * c.mag().max(1e-30));
+    let mut stack: Vec<(f64, f64, f64, f64)> = (0..n).map(|k| (k as f64 / n as f64, (k + 1) as f64 / n as f64, ds[k], ds[k + 1])).collect();
+    let mut budget = 2_000_000usize;
+    while let Some((t0, t1, d0, d1)) = stack.pop() {
+        if best <= good || budget == 0 {
             break;
         }
-        let mut lo = (k.saturating_sub(1)) as f64 / n as f64;
-        let mut hi = ((k + 1).min(n)) as f64 / n as f64;
-        for _ in 0..60 {
-            let m1 = lo + (hi - lo) / 3.0;
-            let m2 = hi - (hi - lo) / 3.0;
-            if dist(p, c.eval(m1)) < dist(p, c.eval(m2)) {
-                hi = m2;
-            } else {
-                lo = m1;
-            }
+        budget -= 1;
+        let lb = (d0 + d1 - l * (t1 - t0)) / 2.0;
+        if lb >= best - slack || t1 - t0 < 1e-15 {
+            continue;
         }
-        d = d.min(dist(p, c.eval((lo + hi) / 2.0)));
+        let tm = 0.5 * (t0 + t1);
+        let dm = dist(p, c.eval(tm));
+        if dm < best {
+            best = dm;
+        }
+        stack.push((t0, tm, d0, dm));
+        stack.push((tm, t1, dm, d1));
     }
-    d
+    best
 }
 
 // ---------------------------------------------------------------------------------------------
@@ -312,6 +321,9 @@ fn check_poly<S: Fl>(orc: &mut Oracle, cx: &Ctxt, poly: &Poly<S>) {
         };
         if d > allow {
             d = d.min(d_pt_curve(v, cx.curve, dense, allow));
+        }
+        if std::env::var("VH_DEBUG").is_ok() {
+            eprintln!("{} vertex {} t={:?} d_param={:e} d_search={:e} allow={:e}", e, i + 1, tend.as_ref().map(|t| t[i]), tend.as_ref().map(|t| dist(v, cx.curve.eval(t[i]))).unwrap_or(-1.0), d_pt_curve(v, cx.curve, dense, 0.0), allow);
         }
         orc.check(d <= allow, &cl("vertex"), "generic", || format!("{}: vertex {} of {} is {:e} from the curve, allowance {:e} (tol {:e})", e, i + 1, n, d, allow, cx.tol));
     }
